@@ -27,6 +27,7 @@
 (*   ast            the parsed statements differ         (C08, C01)        *)
 (*   ast.lines      only the row lines differ            (C19)             *)
 (*   lines.truth    row lines differ from the printer's truth (C19)        *)
+(*   reparse        parsing the same text again gave a different test (C15)*)
 (*   layout.tokens / layout.verdict   a layout variant differs from the    *)
 (*                  first variant of its group           (C20)             *)
 (***************************************************************************)
@@ -89,6 +90,7 @@ Normal(T) ==
 Check(r) ==
   \E lx \in {LexTest(r.cs)} :        \* bound through a singleton set: evaluated exactly once
   IF r.res = "panic" THEN Flag(r, "panic") /\ UNCHANGED grp
+  ELSE IF ~r.reparse_ok THEN Flag(r, "reparse") /\ UNCHANGED grp
   ELSE IF lx.ok # r.lexed THEN Flag(r, "lex.tokens") /\ UNCHANGED grp
   ELSE IF ~lx.ok THEN (IF r.res = "ok" THEN Flag(r, "accept.invalid") ELSE TRUE) /\ UNCHANGED grp
   ELSE IF ~SameTokens(lx.toks, r.tokens) THEN Flag(r, "lex.tokens") /\ UNCHANGED grp
